@@ -1,0 +1,49 @@
+//! Verification hooks for `inflate::stream` (feature `verif-hooks`, off by default).
+#![allow(missing_docs)]
+
+use super::*;
+
+/// The wrapper-level protocol fields of an [`InflateState`].
+#[derive(Copy, Clone, PartialEq, Eq, Debug)]
+pub struct Parts {
+    pub dict_ofs: usize,
+    pub dict_avail: usize,
+    pub first_call: bool,
+    pub has_flushed: bool,
+    pub data_format: DataFormat,
+    pub last_status: TINFLStatus,
+}
+
+impl InflateState {
+    pub fn verif_parts(&self) -> Parts {
+        Parts {
+            dict_ofs: self.dict_ofs,
+            dict_avail: self.dict_avail,
+            first_call: self.first_call,
+            has_flushed: self.has_flushed,
+            data_format: self.data_format,
+            last_status: self.last_status,
+        }
+    }
+
+    pub fn verif_set_parts(&mut self, p: &Parts) {
+        self.dict_ofs = p.dict_ofs;
+        self.dict_avail = p.dict_avail;
+        self.first_call = p.first_call;
+        self.has_flushed = p.has_flushed;
+        self.data_format = p.data_format;
+        self.last_status = p.last_status;
+    }
+
+    pub fn verif_dict(&self, i: usize) -> u8 {
+        self.dict[i]
+    }
+
+    pub fn verif_set_dict(&mut self, i: usize, v: u8) {
+        self.dict[i] = v;
+    }
+
+    pub fn verif_decomp(&self) -> &DecompressorOxide {
+        &self.decomp
+    }
+}
